@@ -35,6 +35,7 @@ var registry = map[string]runner{
 	"C02/random":       w02.Random,
 	"C16/random":       w02.Random,
 	"C16/semantic":     w02.Semantic,
+	"C16/files":        w13.Files,
 	"C14/enum":         w14.Enum,
 	"C14/literal":      w14.Literal,
 	"C15/pairs":        w15.Pairs,
@@ -43,6 +44,7 @@ var registry = map[string]runner{
 	"C15/schema":       w15.Schema,
 	"C20/enum":         w20.Enum,
 	"C20/large":        w20.Large,
+	"C20/stacked":      w20.Stacked,
 	"C13/revisions":    w13.Revisions,
 	"C13/files":        w13.Files,
 	"C13/split":        w13.Split,
